@@ -1,14 +1,14 @@
 SPECIFICATION Spec
 CONSTANTS
-  MaxH = 9
+  MaxH = 8
   Page = 3
   Ahead = 2
-  MaxCrash = 2
+  MaxCrash = 3
   MaxReset = 0
-  GCOn = TRUE
-  MTB = 2
-  GCP = 2
-  JumpOn = FALSE
+  GCOn = FALSE
+  MTB = 3
+  GCP = 1
+  JumpOn = TRUE
   Dev = {}
 INVARIANTS NoDead HeightBound RecoverOK DiskCoherent ResetConfluence ResumeOK MarkersFollowData
 CHECK_DEADLOCK FALSE
